@@ -125,6 +125,30 @@ Theorem C13_transpose_involutive_on_rectangular : forall (A : Type) m (xss : lis
 Proof. exact transpose_involutive_on_rectangular. Qed.
 Print Assumptions C13_transpose_involutive_on_rectangular.
 
+(* transpose of ANY (ragged) list of rows: column j consists of the j-th elements of the rows that
+   have one, in row order; as many columns as the longest row is long; no column is empty *)
+Theorem C13_transpose_ragged : forall (A : Type) (xss : list (list A)),
+  length (sl_transpose xss) = maxlen xss /\
+  (forall j, nth j (sl_transpose xss) [] = flat_map (pick j) xss) /\
+  Forall (fun col => col <> []) (sl_transpose xss).
+Proof. exact transpose_ragged. Qed.
+Print Assumptions C13_transpose_ragged.
+
+(* ziplongest with a function: every batch of ziplongest reduced from the left by the function *)
+Theorem C13_ziplongest_with_folds : forall (A : Type) (f : A -> A -> A) (xss : list (list A)) d,
+  sl_ziplongest_with f xss =
+    map (fun b => match sl_fold f b with Some r => r | None => d end) (sl_ziplongest xss) /\
+  length (sl_ziplongest_with f xss) = maxlen xss.
+Proof. exact ziplongest_with_folds. Qed.
+Print Assumptions C13_ziplongest_with_folds.
+
+(* zip with a function: zip, then the function on every pair *)
+Theorem C13_zip_with_is_zip_then_apply : forall (A : Type) (f : A -> A -> A) (xs ys : list A) d,
+  sl_zip_with f xs ys = map (fun row => f (nth 0 row d) (nth 1 row d)) (sl_zip [xs; ys]) /\
+  length (sl_zip_with f xs ys) = Nat.min (length xs) (length ys).
+Proof. exact zip_with_is_zip_then_apply. Qed.
+Print Assumptions C13_zip_with_is_zip_then_apply.
+
 (* split then join restores the string (any non-empty separator); join then split restores the
    pieces when the one-character separator occurs in none of them; an empty separator raises *)
 Theorem C13_join_split_inverse : forall (Ch : Type) (ceqb : Ch -> Ch -> bool),
@@ -334,6 +358,9 @@ Example C13_nonvacuous :
   sl_permutations [7; 8; 9] = map (map (fun i => nth i [7; 8; 9] 0)) (filter nodupb (sl_cartesian_power (seq 0 3) 3)) /\
   sl_combinations [7; 8; 9] 2 = [[7; 8]; [7; 9]; [8; 9]] /\
   nth 5 (sl_subsequences [7; 8; 9]) [] = [7; 9] /\ mask_select (bits 3 5) [7; 8; 9] = [7; 9] /\
+  sl_transpose [[1; 2; 3]; [4]; []; [5; 6]] = [[1; 4; 5]; [2; 6]; [3]] /\
+  sl_ziplongest_with Nat.add [[1; 2; 3]; [10]] = [11; 2; 3] /\ sl_zip_with Nat.add [1; 2; 3] [10; 20] = [11; 22] /\
+  sl_words (Nat.eqb 0) [0; 1; 2; 0; 0; 3; 0] = [[1; 2]; [3]] /\
   sl_splitn Nat.eqb [0] 2 [1; 0; 2; 0; 3] = Some [[1]; [2; 0; 3]] /\
   sl_lines Nat.eqb 0 [1; 13; 0; 2; 13; 0] = [[1; 13]; [2; 13]] /\ sl_lines Nat.eqb 0 [1; 0; 0] = [[1]; []] /\
   sl_extremum (fun b r => negb (Nat.leb r b)) [3; 1; 2; 1] = Some 1 /\
